@@ -86,7 +86,7 @@ HIST_EVENTS = ("CombCall", "CombRet", "CombRaise", "InputSetCall", "InputSetRet"
                "CancelRet", "End")
 
 
-def converter(op):
+def converter(op, out_cb=None):
     """TLC behaviour of BoolOp.tla / Zip.tla (Coarse = TRUE) -> (task, expected event history)."""
     def convert(beh):
         st0 = beh[0][1]
@@ -97,6 +97,8 @@ def converter(op):
         inputs = [{"kind": K[i], "at": 0, "shield": S[i]} for i in range(len(K))]
         p = {"op": op, "inputs": inputs, "pos": P, "early": True, "cancel_at": 0 if U else None, "horizon": 100,
              "visible": True}
+        if out_cb:
+            p["out_cb"] = out_cb
         task = {"scen": "combinators", "params": p,
                 "strat": ["replay", tlc.schedule_of(beh, NAMES), ["sticky"], True], "gran": "sync",
                 "facts": facts(p)}
@@ -143,13 +145,16 @@ def run(ck):
     #    cancellation outside it, chain_cancel) satisfies every C14 clause on every interleaving
     ck.mc("BoolOp", "BoolOp.mc.cfg", timeout=600)      # f_or, one action per micro-operation
     ck.mc("BoolOp", "BoolOp.mc2.cfg", timeout=600)     # f_and, repeated inputs, f_nocancel, output cancel
+    ck.mc("BoolOp", "BoolOp.mc9.cfg", timeout=600)     # a client callback on the output that cancels an input (re-entry)
     if not quick:
-        for c in ("BoolOp.mc3.cfg", "BoolOp.mc4.cfg", "BoolOp.mc5.cfg", "BoolOp.mc6.cfg"):
+        for c in ("BoolOp.mc3.cfg", "BoolOp.mc4.cfg", "BoolOp.mc5.cfg", "BoolOp.mc6.cfg", "BoolOp.mc7.cfg"):
             ck.mc("BoolOp", c, timeout=1500)
     # 2. spec -> code: coarse-grained TLC behaviours replayed in the real f_or / f_and
     for cfg, op in (("BoolOp.sim.cfg", "or"), ("BoolOp.sim2.cfg", "and")):
         behs = tlc.simulate_behaviours("BoolOp", cfg, 40 if quick else 400, 60, ck.seed + 1, timeout=900)
         ck.replay_behaviours(behs, converter(op), project, TRACE)
+    behs = tlc.simulate_behaviours("BoolOp", "BoolOp.sim3.cfg", 40 if quick else 400, 60, ck.seed + 2, timeout=900)
+    ck.replay_behaviours(behs, converter("or", out_cb=1), project, TRACE)
     # 3. code -> spec: real executions of f_or / f_and with concurrent completers, judged by TLC
     tasks = make_tasks(rng, 450 if quick else 10000, gen)
     require_complete(ck, ck.run_and_validate(tasks, TRACE))
